@@ -558,8 +558,9 @@ class Script(object):
         return self.view(blueprint=True)
 
     def __add__(self, other):
+        raw = self.as_bytes() + other.as_bytes()
         self.commands += other.commands
-        self._raw += other.as_bytes()
+        self._raw = raw
         if other.message and not self.message:
             self.message = other.message
         self.is_locking = None
